@@ -131,6 +131,9 @@ def _dict_to_obj(tpm_type, dict_obj: dict[str, any], command_code=None):
 def _to_obj(tpm_type, value, command_code=None):
     """If value is dict, tpm_type is the type it should be converted to."""
     if isinstance(value, dict):
+        if not value and fields(tpm_type):
+            # marker event of an absent part (empty TPM2B payload, union member without payload)
+            return None
         return _dict_to_obj(tpm_type, value, command_code=command_code)
     elif isinstance(value, list):
         return _list_to_obj(tpm_type, value)
